@@ -174,6 +174,9 @@ func c02real(ev *evidence.Run, tier string, states, transitions *int) {
 		// same-named function-local types of different sizes, sized by several checkers (shared-state races
 		// between concurrently running checkers show up as run-to-run differences)
 		"b/l.go": c02LocalTypes,
+		// an in-package test file: the analysis drivers run a second pass over "a [a.test]" that shares the
+		// syntax trees of the non-test files with the pass over "a"
+		"a/a_test.go": "package a\n\nimport \"testing\"\n\nfunc TestA(t *testing.T) {\n\tx, y := 1, 2\n\tx = x + y\n\t_ = x\n}\n",
 	})
 	n := 12
 	if tier == "thorough" {
